@@ -495,7 +495,66 @@ def gen_pack(repo, info):
     return out + FOOTER
 
 
-GENERATORS = [('Names.lean', gen_names), ('Susp.lean', gen_susp), ('Checksum.lean', gen_checksum), ('Kernel.lean', gen_kernel),
+def gen_grow(repo, info):
+    """dr.py `DirectoryRecord._add_child` / `remove_child`: the rules that grow / shrink a directory's `data_length` after the
+    records were re-packed.  Matched strictly by shape: in `_add_child` the statement
+    `if check_overflow and (<cond>): ... self.data_length += <inc>`, in `remove_child` the assignment `total_size = <expr>`
+    followed by `if <cond>: self.data_length -= <dec>`; conditions and amounts are translated expression by expression
+    (`self.data_length` becomes the parameter `data_length`)."""
+    tree = ast.parse(_read(repo, 'pycdlib/dr.py'))
+    out = HEADER % 'pycdlib/dr.py'
+
+    class SelfAttr(ast.NodeTransformer):
+        def visit_Attribute(self_, node):     # noqa: N805
+            if isinstance(node.value, ast.Name) and node.value.id == 'self':
+                if node.attr != 'data_length':
+                    raise Unsupported('reads self.%s' % node.attr)
+                return ast.copy_location(ast.Name(id='data_length', ctx=ast.Load()), node)
+            return self_.generic_visit(node)
+
+    def aug(stmt, op):
+        if not (isinstance(stmt, ast.AugAssign) and isinstance(stmt.op, op) and ast.unparse(stmt.target) == 'self.data_length'):
+            raise Unsupported('expected an update of self.data_length, found %s' % ast.unparse(stmt)[:60])
+        return SelfAttr().visit(stmt.value)
+
+    def build_grow():
+        fn = _find(tree, 'DirectoryRecord._add_child')
+        ifs = [s for s in fn.body if isinstance(s, ast.If) and isinstance(s.test, ast.BoolOp) and isinstance(s.test.op, ast.And)
+               and ast.unparse(s.test.values[0]) == 'check_overflow']
+        if len(ifs) != 1 or len(ifs[0].test.values) != 2:
+            raise Unsupported('overflow test of _add_child')
+        s = ifs[0]
+        ups = [x for x in s.body if isinstance(x, ast.AugAssign)]
+        if len(ups) != 1:
+            raise Unsupported('updates in the overflow branch')
+        f = Fn(tree, 'DirectoryRecord._add_child', 'dr_grow')
+        cond = f.bexpr(SelfAttr().visit(s.test.values[1]))
+        inc = f.expr(aug(ups[0], ast.Add))
+        return ('def dr_grow (num_extents logical_block_size data_length : Int) : Int × Bool :=\n'
+                '  if %s then ((data_length + %s), true) else (data_length, false)\n' % (cond, inc))
+
+    def build_shrink():
+        fn = _find(tree, 'DirectoryRecord.remove_child')
+        idx = [i for i, s in enumerate(fn.body) if isinstance(s, ast.Assign) and ast.unparse(s.targets[0]) == 'total_size']
+        if len(idx) != 1 or not isinstance(fn.body[idx[0] + 1], ast.If):
+            raise Unsupported('total_size / shrink test of remove_child')
+        asg, s = fn.body[idx[0]], fn.body[idx[0] + 1]
+        ups = [x for x in s.body if isinstance(x, ast.AugAssign)]
+        if len(ups) != 1 or s.orelse:
+            raise Unsupported('updates in the shrink branch')
+        f = Fn(tree, 'DirectoryRecord.remove_child', 'dr_shrink')
+        total = f.expr(SelfAttr().visit(asg.value))
+        cond = f.bexpr(SelfAttr().visit(s.test))
+        dec = f.expr(aug(ups[0], ast.Sub))
+        return ('def dr_shrink (num_extents dirrecord_offset logical_block_size data_length : Int) : Int × Bool :=\n'
+                '  let total_size := %s\n'
+                '  if %s then ((data_length - %s), true) else (data_length, false)\n' % (total, cond, dec))
+    out += _try(info, 'dr_grow', build_grow)
+    out += '\n' + _try(info, 'dr_shrink', build_shrink)
+    return out + FOOTER
+
+
+GENERATORS = [('Grow.lean', gen_grow), ('Names.lean', gen_names), ('Susp.lean', gen_susp), ('Checksum.lean', gen_checksum), ('Kernel.lean', gen_kernel),
               ('Pack.lean', gen_pack)]
 
 
